@@ -105,21 +105,21 @@ func c11(r *Report) {
 	c11EntryLocking(r, en)
 	// (5) served list freshness
 	cr := p.Func(rev, "StatusList2021", "Credential")
-	r.ArgIs("C11.serve.fresh-means-now-plus-margin", cr, Fn("std:time", "Time", "Before"), -1, VPat{Desc: "time.Now().Add(minTimeUntilExpired)", M: func(v ssa.Value) bool {
+	nowPlusMargin := VPat{Desc: "time.Now().Add(minTimeUntilExpired)", M: func(v ssa.Value) bool {
 		c, ok := StripConv(v).(*ssa.Call)
 		if !ok || !Fn("std:time", "Time", "Add").M(c.Common()) || !NowV().M(c.Common().Args[0]) {
 			return false
 		}
 		d, ok := ConstInt(c.Common().Args[1])
 		return ok && d > 0
-	}}, 1)
+	}}
 	r.Gate(Gate{ID: "C11.serve.stored-only-if-fresh", Fn: cr, Effect: InstrEffect("return of the stored credential", func(in ssa.Instruction) bool {
 		ret, ok := in.(*ssa.Return)
 		if !ok {
 			return false
 		}
 		return CallV(Fn(goDid+"/vc", "", "ParseVerifiableCredential"), 0).M(ret.Results[0])
-	}), Check: CallCheck(Fn("std:time", "Time", "Before"), -1, IsTrue)})
+	}), Check: TimeOrder("time.Now()+margin is before the stored credential's expiry", nowPlusMargin, AnyV(), IsTrue)})
 	r.Gate(Gate{ID: "C11.serve.managed-only", Fn: cr, Effect: ReturnsNonNil(0), Check: CallCheck(Fn(rev, "StatusList2021", "isManaged"), -1, IsTrue)})
 }
 
